@@ -13,9 +13,16 @@ def fmt(v):
     return "None" if v is None else str(v)
 
 
+def oracle_alt13(code):
+    return spec.alt13_spec(code)
+
+
 def cases(ctx):
     rng = ctx.rng
     nbg = ctx.n(1, 6)
+    # the Lean Spec.alt13 (what the theorems are stated against) = this harness's Annex 10 oracle, all 8192 codes
+    for code in range(8192):
+        yield dict(op="spec.alt13 %d" % code, real=("h:props.C07.oracle_alt13", [code]), tag="spec-tie", trivial=True)
     # 1. the 13-bit function, exhaustively
     for code in range(8192):
         b = "".join(map(str, bits_of(code, 13)))
